@@ -15,7 +15,7 @@ import (
 
 func init() {
 	sim.Register(&sim.Prop{
-		ID: "C08", Run: runC08, QuickRuns: 200000, ThoroughRuns: 8000000,
+		ID: "C08", Run: runC08, QuickRuns: 200000, ThoroughRuns: 4000000,
 		Rule:          "Each run: 1..6 cases; a case is a generated value tree (all types, chains nested 1..70 for every container kind, fixed-size fast-path containers) whose encoding passes through the fault transport (truncation at a cut point biased to structural boundaries, corruption of 1..3 structural bytes - type tags incl. >= 0x80, sizes 0x7fffffff/0x80000000/0xffffffff/size+-1, field ids - or a hostile requested type) and is delivered to all five skippers, the three stream-fed ones through a simulated Source with per-case fragmentation and terminal error. Oracle: the reference parser's verdict on the delivered bytes (Appendix A table).",
 		Components:    realComponents,
 		Probes:        []string{"verdict.OK", "verdict.TRUNCATED", "verdict.NEGATIVE", "verdict.UNKNOWN", "depth_63", "depth_64_boundary", "depth_ge_65", "dontcare_empty_container", "sim_oom_accepted", "tag_ge_0x80_parsed", "every_cut_point_enumerated"},
